@@ -206,6 +206,9 @@ def run(fx, R, tier):
                 continue
             S = la.analyse(fn)
             role = role_of(cq, owner, name, fn)
+            if role == 'writer' and (fn.get('ret') or {}).get('s', 'void') != 'void' and not any(a.kind == 'W' for a in S.accesses) and name.startswith('operator ') :
+                # a conversion operator that writes nothing: `T v = shared;` on a non-const object selects it whatever its constness - any thread reads through it
+                role = 'reader'
             sums.append((name, role, S, fn))
             R.used(fn)
             R.used(*S.inlined)
